@@ -193,7 +193,7 @@ func init() {
 			res := m.newRequest(a[off], a[off+1], a[off+2])
 			if t, ok := res.(Tuple); ok {
 				if c, ok := t[0].(Ptr); ok && c != nil {
-					if d, has := m.side[c]; has && d != nil {
+					if d, has := m.side[c]; has && d != nil && m.bodyIsInMemory(a[off+2]) {
 						if mk, ok := m.ex.ex.hpkg.Members["verifGetBodyMaker"].(*ssa.Function); ok {
 							cl := m.callSync(g, mk, []Value{d})
 							m.setField(c, m.namedType("net/http", "Request"), "GetBody", cl)
@@ -291,6 +291,15 @@ func init() {
 		data, err := m.readerDrain(a[0].(Iface))
 		return Tuple{data, err}
 	}
+	// NopCloser: the reader itself (Close is a no-op in the model of every reader); what matters is that
+	// http.NewRequest does not recognise the wrapper and sets no GetBody for it
+	nop := func(m *Machine, a []Value) Value {
+		t := m.namedType("io", "LimitedReader")
+		c := newCell(Value(&Opaque{Kind: "nopCloser", X: &limitedReader{inner: a[0].(Iface), n: int64(1) << 62}}))
+		return Iface{T: ptrTo(t), V: c}
+	}
+	R("io/ioutil.NopCloser", nop)
+	R("io.NopCloser", nop)
 	R("io.LimitReader", func(m *Machine, a []Value) Value {
 		t := m.namedType("io", "LimitedReader")
 		c := newCell(Value(&Opaque{Kind: "limitedReader", X: &limitedReader{inner: a[0].(Iface), n: a[1]}}))
@@ -590,4 +599,20 @@ func sortStrings(s []string) {
 			s[j], s[j-1] = s[j-1], s[j]
 		}
 	}
+}
+
+
+// bodyIsInMemory: the body types for which net/http.NewRequest sets ContentLength and GetBody
+// (*bytes.Buffer, *bytes.Reader, *strings.Reader: the readers backed by the engine's buffer model)
+func (m *Machine) bodyIsInMemory(body Value) bool {
+	bi, ok := body.(Iface)
+	if !ok || bi.T == nil {
+		return false
+	}
+	p, ok := bi.V.(Ptr)
+	if !ok || p == nil {
+		return false
+	}
+	_, isBuf := m.bufs[p]
+	return isBuf
 }
